@@ -615,6 +615,32 @@ Section EncProofs.
 End EncProofs.
 
 (* ---------------------------------------------------------------------------------------- *)
+(*  the timed flush is unconditional; the session stays alive while traffic flows either way  *)
+(* ---------------------------------------------------------------------------------------- *)
+Lemma tick_flushes_everything BatchBuf e :
+  e_batch (estep BatchBuf e EvTick) = [] /\
+  concat (e_out (estep BatchBuf e EvTick)) = concat (e_out e) ++ e_batch e.
+Proof.
+  cbn [estep]. unfold eflush. destruct (e_batch e) as [|b bs] eqn:E.
+  - rewrite E. split; [reflexivity|now rewrite app_nil_r].
+  - cbn [e_batch e_out]. split; [reflexivity|]. rewrite concat_app. cbn [concat]. now rewrite app_nil_r.
+Qed.
+
+Theorem session_survives_live_traffic TTL : forall evs s,
+  ss_closed s = false -> live_traffic TTL (ss_last s) evs ->
+  ss_closed (sess_run true TTL s evs) = false /\ ss_lost (sess_run true TTL s evs) = ss_lost s.
+Proof.
+  induction evs as [|e evs IH]; intros s Hc Hl; [split; [exact Hc|reflexivity]|].
+  unfold sess_run in *. cbn [fold_left]. destruct e as [t|t|t]; cbn [live_traffic] in Hl.
+  - destruct (IH {| ss_last := t; ss_closed := false; ss_lost := ss_lost s |} eq_refl Hl) as [A B].
+    cbn [sess_step]. rewrite Hc. split; [exact A|exact B].
+  - destruct (IH {| ss_last := t; ss_closed := false; ss_lost := ss_lost s |} eq_refl Hl) as [A B].
+    cbn [sess_step]. rewrite Hc. split; [exact A|exact B].
+  - destruct Hl as [Hle Hl]. cbn [sess_step]. rewrite Hc.
+    replace (TTL <? t - ss_last s) with false by lia. apply IH; assumption.
+Qed.
+
+(* ---------------------------------------------------------------------------------------- *)
 (*  udpTunnelConn.ReceivePacket: independent of how the transport chunks / coalesces records   *)
 (* ---------------------------------------------------------------------------------------- *)
 Lemma tc_recv_record d X r : lenN d < 65536 -> rest r = enc_dgram d ++ X ->
